@@ -154,18 +154,24 @@ func noColon(s string) string { return strings.ReplaceAll(s, ":", "_") }
 func genRT(t *rapid.T) RTCase {
 	var c RTCase
 	n := rapid.IntRange(1, 30).Draw(t, "nops")
+	if n < 4 && rapid.Bool().Draw(t, "longer") {
+		n += 6
+	}
 	live := 0
 	for i := 0; i < n; i++ {
-		k := rapid.SampledFrom([]string{"add", "add", "add", "add", "add", "del", "suspend", "suspend", "reactivate", "saveload"}).Draw(t, "kind")
+		k := rapid.SampledFrom([]string{"add", "add", "add", "add", "add", "del", "suspend", "suspend", "reactivate", "saveload", "saveload"}).Draw(t, "kind")
 		op := RTOp{Kind: k}
 		switch k {
 		case "add":
 			op.Text = genRuleText(t)
 			live++ // upper bound, good enough to aim indices
 		case "del", "suspend", "reactivate":
-			op.Idx = rapid.IntRange(0, live+2).Draw(t, "idx")
+			op.Idx = rapid.IntRange(0, live/2+1).Draw(t, "idx")
 		}
 		c.Ops = append(c.Ops, op)
+	}
+	if rapid.IntRange(0, 3).Draw(t, "finalsave") > 0 {
+		c.Ops = append(c.Ops, RTOp{Kind: "saveload"})
 	}
 	return c
 }
@@ -184,6 +190,11 @@ func ruleToModel(r simbox.Rule) (mrule, bool) {
 	return mrule{Class: c, Tick: r.Tick, Action: a, Object: r.Object, Extra: r.Extra}, ok1 && ok2
 }
 
+// rf prints the fields of a rule (Rule is a Stringer: %v would print its rule text instead)
+func rf(r simbox.Rule) string {
+	return fmt.Sprintf("{Timec:%d Tick:%d Action:%d Object:%q Extra:%q Suspended:%v}", r.Timec, r.Tick, r.Action, r.Object, r.Extra, r.Suspended)
+}
+
 func sameRule(a, b mrule) bool {
 	return a.Class == b.Class && a.Tick == b.Tick && a.Action == b.Action && a.Object == b.Object && a.Extra == b.Extra
 }
@@ -192,11 +203,11 @@ func sameRule(a, b mrule) bool {
 func checkRoundTrip(r simbox.Rule) *pbt.Failure {
 	s := r.String()
 	if s == "" {
-		return pbt.Failf("print-empty", "rule %+v prints to the empty string", r)
+		return pbt.Failf("print-empty", "rule %s prints to the empty string", rf(r))
 	}
 	sb := new(simbox.Simbox)
 	if err := sb.Add(s); err != nil {
-		return pbt.Failf("print-unparsable", "rule %+v prints to %q which Add refuses: %v", r, s, err)
+		return pbt.Failf("print-unparsable", "rule %s prints to %q which Add refuses: %v", rf(r), s, err)
 	}
 	if len(sb.Rules) != 1 {
 		return pbt.Failf("print-unparsable", "Add(%q) left %d rules", s, len(sb.Rules))
@@ -204,7 +215,7 @@ func checkRoundTrip(r simbox.Rule) *pbt.Failure {
 	back := sb.Rules[0]
 	back.Suspended = r.Suspended
 	if back != r {
-		return pbt.Failf("roundtrip", "rule %+v prints to %q which parses to %+v", r, s, sb.Rules[0])
+		return pbt.Failf("roundtrip", "rule %s prints to %q which parses to %s", rf(r), s, rf(sb.Rules[0]))
 	}
 	return nil
 }
@@ -235,7 +246,7 @@ func propRT(c RTCase) pbt.Outcome {
 		for i, r := range sb.Rules {
 			mr, ok := ruleToModel(r)
 			if !ok || !sameRule(mr, model[i].mrule) || r.Suspended != model[i].Suspended {
-				return pbt.Failf("list", "step %d %+v: rule %d is %+v, model has %+v suspended=%v", step, op, i, r, model[i].mrule, model[i].Suspended)
+				return pbt.Failf("list", "step %d %+v: rule %d is %s, model has %+v suspended=%v", step, op, i, rf(r), model[i].mrule, model[i].Suspended)
 			}
 		}
 		want := expectedPrint(model, sb.Rules)
@@ -268,7 +279,7 @@ func propRT(c RTCase) pbt.Outcome {
 					return pbt.Failf("print-unparsable", "step %d: listing line %q does not parse back: %v", step, l, err)
 				}
 				if mr, _ := ruleToModel(sb2.Rules[i]); !sameRule(mr, model[i].mrule) {
-					return pbt.Failf("roundtrip", "step %d: listing line %q parses to %+v, rule is %+v", step, l, sb2.Rules[i], model[i].mrule)
+					return pbt.Failf("roundtrip", "step %d: listing line %q parses to %s, rule is %+v", step, l, rf(sb2.Rules[i]), model[i].mrule)
 				}
 			}
 			labels["print-parsed-back"] = true
@@ -309,10 +320,10 @@ func propRT(c RTCase) pbt.Outcome {
 			}
 			got, known := ruleToModel(r)
 			if !known {
-				return pbt.Outcome{Fail: pbt.Failf("add-fields", "step %d: Add(%q) produced %+v with an unknown class/action code", step, op.Text, r)}
+				return pbt.Outcome{Fail: pbt.Failf("add-fields", "step %d: Add(%q) produced %s with an unknown class/action code", step, op.Text, rf(r))}
 			}
 			if inModel && want.Doc && !sameRule(got, want) {
-				return pbt.Outcome{Fail: pbt.Failf("add-fields", "step %d: Add(%q) produced %+v, the documented meaning is %+v", step, op.Text, r, want)}
+				return pbt.Outcome{Fail: pbt.Failf("add-fields", "step %d: Add(%q) produced %s, the documented meaning is %+v", step, op.Text, rf(r), want)}
 			}
 			if inModel && !sameRule(got, want) {
 				labels["accepted:fields-differ-from-model(undocumented form)"] = true
@@ -465,8 +476,11 @@ func fuzzOne(s string) (fail string) {
 		if err := json.Unmarshal(b, sb2); err != nil {
 			return "load: " + err.Error()
 		}
-		if len(sb2.Rules) != 1 || sb2.Rules[0] != sb.Rules[0] {
-			return fmt.Sprintf("load: rule %+v came back from the rule file as %+v", sb.Rules[0], sb2.Rules)
+		if len(sb2.Rules) != 1 {
+			return fmt.Sprintf("load: rule %s came back from the rule file as %d rules", rf(sb.Rules[0]), len(sb2.Rules))
+		}
+		if sb2.Rules[0] != sb.Rules[0] {
+			return fmt.Sprintf("load: rule %s came back from the rule file as %s", rf(sb.Rules[0]), rf(sb2.Rules[0]))
 		}
 	}
 	return ""
